@@ -20,44 +20,44 @@ import (
 	"verif/lib/fsx"
 )
 
-type helper struct {
+type seqHelper struct {
 	Name  string
 	Roles []string
-	Fn    func(in *inst, a []any) error
+	Fn    func(in *seqInst, a []any) error
 	Go    string // format of the call, one %s per role
 }
 
-func str(a any) string { return a.(string) }
+func asStr(a any) string { return a.(string) }
 
 type vfsPair struct{ dst, src avfs.VFS }
 
-var helpers = []helper{
-	{"Glob", []string{"glob"}, func(in *inst, a []any) error { _, err := avfs.Glob(in.v, str(a[0])); return err }, "avfs.Glob(vfs, %s)"},
-	{"WalkDir", []string{"path", "walkfn"}, func(in *inst, a []any) error {
-		return avfs.WalkDir(in.v, str(a[0]), a[1].(fs.WalkDirFunc))
+var seqHelpers = []seqHelper{
+	{"Glob", []string{"glob"}, func(in *seqInst, a []any) error { _, err := avfs.Glob(in.v, asStr(a[0])); return err }, "avfs.Glob(vfs, %s)"},
+	{"WalkDir", []string{"path", "walkfn"}, func(in *seqInst, a []any) error {
+		return avfs.WalkDir(in.v, asStr(a[0]), a[1].(fs.WalkDirFunc))
 	}, "avfs.WalkDir(vfs, %s, %s)"},
-	{"ReadDir", []string{"path"}, func(in *inst, a []any) error { _, err := avfs.ReadDir(in.v, str(a[0])); return err }, "avfs.ReadDir(vfs, %s)"},
-	{"ReadFile", []string{"path"}, func(in *inst, a []any) error { _, err := avfs.ReadFile(in.v, str(a[0])); return err }, "avfs.ReadFile(vfs, %s)"},
-	{"WriteFile", []string{"path", "wdata", "perm"}, func(in *inst, a []any) error {
-		return avfs.WriteFile(in.v, str(a[0]), a[1].([]byte), a[2].(fs.FileMode))
+	{"ReadDir", []string{"path"}, func(in *seqInst, a []any) error { _, err := avfs.ReadDir(in.v, asStr(a[0])); return err }, "avfs.ReadDir(vfs, %s)"},
+	{"ReadFile", []string{"path"}, func(in *seqInst, a []any) error { _, err := avfs.ReadFile(in.v, asStr(a[0])); return err }, "avfs.ReadFile(vfs, %s)"},
+	{"WriteFile", []string{"path", "wdata", "perm"}, func(in *seqInst, a []any) error {
+		return avfs.WriteFile(in.v, asStr(a[0]), a[1].([]byte), a[2].(fs.FileMode))
 	}, "avfs.WriteFile(vfs, %s, %s, %s)"},
-	{"Create", []string{"path"}, func(in *inst, a []any) error { _, err := avfs.Create(in.v, str(a[0])); return err }, "avfs.Create(vfs, %s)"},
-	{"CreateTemp", []string{"path", "tmppat"}, func(in *inst, a []any) error {
-		_, err := avfs.CreateTemp(in.v, str(a[0]), str(a[1]))
+	{"Create", []string{"path"}, func(in *seqInst, a []any) error { _, err := avfs.Create(in.v, asStr(a[0])); return err }, "avfs.Create(vfs, %s)"},
+	{"CreateTemp", []string{"path", "tmppat"}, func(in *seqInst, a []any) error {
+		_, err := avfs.CreateTemp(in.v, asStr(a[0]), asStr(a[1]))
 
 		return err
 	}, "avfs.CreateTemp(vfs, %s, %s)"},
-	{"MkdirTemp", []string{"path", "tmppat"}, func(in *inst, a []any) error {
-		_, err := avfs.MkdirTemp(in.v, str(a[0]), str(a[1]))
+	{"MkdirTemp", []string{"path", "tmppat"}, func(in *seqInst, a []any) error {
+		_, err := avfs.MkdirTemp(in.v, asStr(a[0]), asStr(a[1]))
 
 		return err
 	}, "avfs.MkdirTemp(vfs, %s, %s)"},
-	{"CopyFile", []string{"pair", "corepath", "corepath"}, func(in *inst, a []any) error {
+	{"CopyFile", []string{"pair", "corepath", "corepath"}, func(in *seqInst, a []any) error {
 		p := a[0].(vfsPair)
 
-		return avfs.CopyFile(p.dst, p.src, str(a[1]), str(a[2]))
+		return avfs.CopyFile(p.dst, p.src, asStr(a[1]), asStr(a[2]))
 	}, "avfs.CopyFile(%s, %s, %s)"},
-	{"CopyFileHash", []string{"pair", "corepath", "corepath", "hashnil"}, func(in *inst, a []any) error {
+	{"CopyFileHash", []string{"pair", "corepath", "corepath", "hashnil"}, func(in *seqInst, a []any) error {
 		p := a[0].(vfsPair)
 
 		var h hash.Hash
@@ -65,42 +65,42 @@ var helpers = []helper{
 			h = a[3].(hash.Hash)
 		}
 
-		_, err := avfs.CopyFileHash(p.dst, p.src, str(a[1]), str(a[2]), h)
+		_, err := avfs.CopyFileHash(p.dst, p.src, asStr(a[1]), asStr(a[2]), h)
 
 		return err
 	}, "avfs.CopyFileHash(%s, %s, %s, %s)"},
-	{"HashFile", []string{"path", "hash"}, func(in *inst, a []any) error {
-		_, err := avfs.HashFile(in.v, str(a[0]), a[1].(hash.Hash))
+	{"HashFile", []string{"path", "hash"}, func(in *seqInst, a []any) error {
+		_, err := avfs.HashFile(in.v, asStr(a[0]), a[1].(hash.Hash))
 
 		return err
 	}, "avfs.HashFile(vfs, %s, %s)"},
-	{"FromUnixPath", []string{"unixpath"}, func(in *inst, a []any) error { _ = avfs.FromUnixPath(in.v, str(a[0])); return nil }, "avfs.FromUnixPath(vfs, %s)"},
-	{"SplitAbs", []string{"abspath"}, func(in *inst, a []any) error { _, _ = avfs.SplitAbs(in.v, str(a[0])); return nil }, "avfs.SplitAbs(vfs, %s)"},
-	{"VolumeName", []string{"path"}, func(in *inst, a []any) error { _ = avfs.VolumeName(in.v, str(a[0])); return nil }, "avfs.VolumeName(vfs, %s)"},
-	{"VolumeNameLen", []string{"path"}, func(in *inst, a []any) error { _ = avfs.VolumeNameLen(in.v, str(a[0])); return nil }, "avfs.VolumeNameLen(vfs, %s)"},
-	{"Exists", []string{"path"}, func(in *inst, a []any) error { _, err := avfs.Exists(in.v, str(a[0])); return err }, "avfs.Exists(vfs, %s)"},
-	{"IsDir", []string{"path"}, func(in *inst, a []any) error { _, err := avfs.IsDir(in.v, str(a[0])); return err }, "avfs.IsDir(vfs, %s)"},
-	{"IsEmpty", []string{"path"}, func(in *inst, a []any) error { _, err := avfs.IsEmpty(in.v, str(a[0])); return err }, "avfs.IsEmpty(vfs, %s)"},
-	{"DirExists", []string{"path"}, func(in *inst, a []any) error { _, err := avfs.DirExists(in.v, str(a[0])); return err }, "avfs.DirExists(vfs, %s)"},
-	{"ToOpenMode", []string{"flag"}, func(in *inst, a []any) error { _ = avfs.ToOpenMode(a[0].(int)); return nil }, "avfs.ToOpenMode(%s)"},
-	{"Abs", []string{"path", "corepath"}, func(in *inst, a []any) error { _, err := avfs.Abs(in.v, str(a[0]), str(a[1])); return err }, "avfs.Abs(vfs, %s, %s)"},
-	{"HomeDir", []string{"corepath"}, func(in *inst, a []any) error { _ = avfs.HomeDir(in.v, str(a[0])); return nil }, "avfs.HomeDir(vfs, %s)"},
-	{"HomeDirUser", []string{"corepath", "user"}, func(in *inst, a []any) error {
-		_ = avfs.HomeDirUser(in.v, str(a[0]), a[1].(avfs.UserReader))
+	{"FromUnixPath", []string{"unixpath"}, func(in *seqInst, a []any) error { _ = avfs.FromUnixPath(in.v, asStr(a[0])); return nil }, "avfs.FromUnixPath(vfs, %s)"},
+	{"SplitAbs", []string{"abspath"}, func(in *seqInst, a []any) error { _, _ = avfs.SplitAbs(in.v, asStr(a[0])); return nil }, "avfs.SplitAbs(vfs, %s)"},
+	{"VolumeName", []string{"path"}, func(in *seqInst, a []any) error { _ = avfs.VolumeName(in.v, asStr(a[0])); return nil }, "avfs.VolumeName(vfs, %s)"},
+	{"VolumeNameLen", []string{"path"}, func(in *seqInst, a []any) error { _ = avfs.VolumeNameLen(in.v, asStr(a[0])); return nil }, "avfs.VolumeNameLen(vfs, %s)"},
+	{"Exists", []string{"path"}, func(in *seqInst, a []any) error { _, err := avfs.Exists(in.v, asStr(a[0])); return err }, "avfs.Exists(vfs, %s)"},
+	{"IsDir", []string{"path"}, func(in *seqInst, a []any) error { _, err := avfs.IsDir(in.v, asStr(a[0])); return err }, "avfs.IsDir(vfs, %s)"},
+	{"IsEmpty", []string{"path"}, func(in *seqInst, a []any) error { _, err := avfs.IsEmpty(in.v, asStr(a[0])); return err }, "avfs.IsEmpty(vfs, %s)"},
+	{"DirExists", []string{"path"}, func(in *seqInst, a []any) error { _, err := avfs.DirExists(in.v, asStr(a[0])); return err }, "avfs.DirExists(vfs, %s)"},
+	{"ToOpenMode", []string{"flag"}, func(in *seqInst, a []any) error { _ = avfs.ToOpenMode(a[0].(int)); return nil }, "avfs.ToOpenMode(%s)"},
+	{"Abs", []string{"path", "corepath"}, func(in *seqInst, a []any) error { _, err := avfs.Abs(in.v, asStr(a[0]), asStr(a[1])); return err }, "avfs.Abs(vfs, %s, %s)"},
+	{"HomeDir", []string{"corepath"}, func(in *seqInst, a []any) error { _ = avfs.HomeDir(in.v, asStr(a[0])); return nil }, "avfs.HomeDir(vfs, %s)"},
+	{"HomeDirUser", []string{"corepath", "user"}, func(in *seqInst, a []any) error {
+		_ = avfs.HomeDirUser(in.v, asStr(a[0]), a[1].(avfs.UserReader))
 
 		return nil
 	}, "avfs.HomeDirUser(vfs, %s, %s)"},
-	{"MkHomeDir", []string{"corepath", "user"}, func(in *inst, a []any) error {
-		_, err := avfs.MkHomeDir(in.v, str(a[0]), a[1].(avfs.UserReader))
+	{"MkHomeDir", []string{"corepath", "user"}, func(in *seqInst, a []any) error {
+		_, err := avfs.MkHomeDir(in.v, asStr(a[0]), a[1].(avfs.UserReader))
 
 		return err
 	}, "avfs.MkHomeDir(vfs, %s, %s)"},
-	{"MkSystemDirs", []string{"dirinfos"}, func(in *inst, a []any) error { return avfs.MkSystemDirs(in.v, a[0].([]avfs.DirInfo)) }, "avfs.MkSystemDirs(vfs, %s)"},
-	{"SystemDirs", []string{"corepath"}, func(in *inst, a []any) error { _ = avfs.SystemDirs(in.v, str(a[0])); return nil }, "avfs.SystemDirs(vfs, %s)"},
-	{"TempDir", nil, func(in *inst, a []any) error { _ = avfs.TempDir(in.v); return nil }, "avfs.TempDir(vfs)"},
-	{"TempDirUser", []string{"corepath", "name"}, func(in *inst, a []any) error { _ = avfs.TempDirUser(in.v, str(a[0]), str(a[1])); return nil }, "avfs.TempDirUser(vfs, %s, %s)"},
-	{"SetUserByName", []string{"name"}, func(in *inst, a []any) error { return avfs.SetUserByName(in.v, str(a[0])) }, "avfs.SetUserByName(vfs, %s)"},
-	{"Tree", []string{"path"}, func(in *inst, a []any) error { _ = avfs.Tree(in.v, str(a[0])); return nil }, "avfs.Tree(vfs, %s)"},
+	{"MkSystemDirs", []string{"dirinfos"}, func(in *seqInst, a []any) error { return avfs.MkSystemDirs(in.v, a[0].([]avfs.DirInfo)) }, "avfs.MkSystemDirs(vfs, %s)"},
+	{"SystemDirs", []string{"corepath"}, func(in *seqInst, a []any) error { _ = avfs.SystemDirs(in.v, asStr(a[0])); return nil }, "avfs.SystemDirs(vfs, %s)"},
+	{"TempDir", nil, func(in *seqInst, a []any) error { _ = avfs.TempDir(in.v); return nil }, "avfs.TempDir(vfs)"},
+	{"TempDirUser", []string{"corepath", "name"}, func(in *seqInst, a []any) error { _ = avfs.TempDirUser(in.v, asStr(a[0]), asStr(a[1])); return nil }, "avfs.TempDirUser(vfs, %s, %s)"},
+	{"SetUserByName", []string{"name"}, func(in *seqInst, a []any) error { return avfs.SetUserByName(in.v, asStr(a[0])) }, "avfs.SetUserByName(vfs, %s)"},
+	{"Tree", []string{"path"}, func(in *seqInst, a []any) error { _ = avfs.Tree(in.v, asStr(a[0])); return nil }, "avfs.Tree(vfs, %s)"},
 }
 
 // Generic functions of package avfs that are reached through the VFS methods
@@ -117,8 +117,8 @@ var helpersExcluded = map[string]string{
 	"NewPathIterator": "enumerated in the PathIterator section",
 }
 
-func (d *dom) absPaths(t *target) []argv {
-	var out []argv
+func (d *seqDom) absPaths(t *seqTarget) []seqArg {
+	var out []seqArg
 
 	in := t.newInst()
 
@@ -134,14 +134,14 @@ func (d *dom) absPaths(t *target) []argv {
 	return out
 }
 
-func (d *dom) roleDomain(t *target, role string) []argv {
+func (d *seqDom) roleDomain(t *seqTarget, role string) []seqArg {
 	switch role {
 	case "path":
 		return d.paths
 	case "unixpath":
-		var out []argv
+		var out []seqArg
 		for _, e := range unixPaths {
-			a := argv{Class: e.Class, Show: e.Show, Go: e.Go, V: e.P}
+			a := seqArg{Class: e.Class, Show: e.Show, Go: e.Go, V: e.P}
 			if a.Show == "" {
 				a.Show = fmt.Sprintf("%q", e.P)
 			}
@@ -165,27 +165,27 @@ func (d *dom) roleDomain(t *target, role string) []argv {
 	case "wdata":
 		return writeData()
 	case "perm":
-		return modes()
+		return modeDomain()
 	case "walkfn":
 		return walkFuncs()
 	case "hash":
-		return hashes(false)
+		return hashDomain(false)
 	case "hashnil":
-		return hashes(true)
+		return hashDomain(true)
 	case "flag":
 		return d.flags()
 	case "user":
-		return users()
+		return userDomain()
 	case "name":
 		return d.names()
 	case "pair":
-		return []argv{
-			{Class: "same-fs", Show: "dst=vfs,src=vfs", Go: "vfs, vfs", Mk: func(in *inst) any { return vfsPair{in.v, in.v} }},
-			{Class: "to-other-fs", Show: "dst=other,src=vfs", Go: "other, vfs", Mk: func(in *inst) any { return vfsPair{in.getOther(), in.v} }},
-			{Class: "from-other-fs", Show: "dst=vfs,src=other", Go: "vfs, other", Mk: func(in *inst) any { return vfsPair{in.v, in.getOther()} }},
+		return []seqArg{
+			{Class: "same-fs", Show: "dst=vfs,src=vfs", Go: "vfs, vfs", Mk: func(in *seqInst) any { return vfsPair{in.v, in.v} }},
+			{Class: "to-other-fs", Show: "dst=other,src=vfs", Go: "other, vfs", Mk: func(in *seqInst) any { return vfsPair{in.getOther(), in.v} }},
+			{Class: "from-other-fs", Show: "dst=vfs,src=other", Go: "vfs, other", Mk: func(in *seqInst) any { return vfsPair{in.v, in.getOther()} }},
 		}
 	case "dirinfos":
-		return []argv{
+		return []seqArg{
 			{Class: "nil", Show: "nil", Go: "nil", V: []avfs.DirInfo(nil)},
 			{Class: "one-dir", Show: "[{/x 0755}]", Go: fmt.Sprintf("[]avfs.DirInfo{{Path: %q, Perm: 0o755}}", d.px("/x")), V: []avfs.DirInfo{{Path: d.px("/x"), Perm: 0o755}}},
 			{Class: "empty-path", Show: `[{"" 0}]`, Go: `[]avfs.DirInfo{{Path: "", Perm: 0}}`, V: []avfs.DirInfo{{Path: "", Perm: 0}}},
@@ -196,19 +196,19 @@ func (d *dom) roleDomain(t *target, role string) []argv {
 	panic(harnessError{"unknown helper role " + role})
 }
 
-func helperUnits(t *target, st state) []*unit {
-	var out []*unit
+func helperUnits(t *seqTarget, st seqState) []*seqUnit {
+	var out []*seqUnit
 
-	for _, h := range helpers {
+	for _, h := range seqHelpers {
 		h := h
-		u := &unit{T: t, St: st, Sec: "helper", Type: "helper", FS: t.Name, Method: h.Name}
+		u := &seqUnit{T: t, St: st, Sec: "helper", Type: "helper", FS: t.Name, Method: h.Name}
 
 		for _, r := range h.Roles {
 			u.Doms = append(u.Doms, t.d.roleDomain(t, r))
 		}
 
-		u.custom = func(in *inst, vals []any) string { return foldKind(fsx.ErrKind(h.Fn(in, vals))) }
-		u.goCall = func(args []argv) []string {
+		u.custom = func(in *seqInst, vals []any) string { return foldKind(fsx.ErrKind(h.Fn(in, vals))) }
+		u.goCall = func(args []seqArg) []string {
 			var gs []any
 			for _, a := range args {
 				gs = append(gs, a.Go)
@@ -253,8 +253,8 @@ var piMethodsCovered = []string{
 	"VolumeName", "VolumeNameLen",
 }
 
-func stepDomain(from, to int) []argv {
-	var out []argv
+func stepDomain(from, to int) []seqArg {
+	var out []seqArg
 
 	for k := from; k <= to; k++ {
 		c := "iterating"
@@ -262,7 +262,7 @@ func stepDomain(from, to int) []argv {
 			c = "before-first-next"
 		}
 
-		out = append(out, argv{Class: c, Show: fmt.Sprintf("after %d Next()", k), Go: fmt.Sprint(k), V: k})
+		out = append(out, seqArg{Class: c, Show: fmt.Sprintf("after %d Next()", k), Go: fmt.Sprint(k), V: k})
 	}
 
 	return out
@@ -270,7 +270,7 @@ func stepDomain(from, to int) []argv {
 
 // advance creates the iterator and calls Next k times; ok is false when Next
 // returned false on the way (iterator exhausted: excluded protocol state).
-func advance(in *inst, p string, k int) (pi *avfs.PathIterator[avfs.VFS], ok bool) {
+func advance(in *seqInst, p string, k int) (pi *avfs.PathIterator[avfs.VFS], ok bool) {
 	pi = avfs.NewPathIterator(in.v, p)
 
 	for i := 0; i < k; i++ {
@@ -282,17 +282,17 @@ func advance(in *inst, p string, k int) (pi *avfs.PathIterator[avfs.VFS], ok boo
 	return pi, true
 }
 
-func iterUnits(t *target, st state) []*unit {
+func iterUnits(t *seqTarget, st seqState) []*seqUnit {
 	// the iterator depends on the file system only through IsAbs, Join,
 	// PathSeparator and the volume name length: states do not matter
 	if len(st.Muts) > 0 {
 		return nil
 	}
 
-	var out []*unit
+	var out []*seqUnit
 
 	abs := t.d.absPaths(t)
-	goNew := func(args []argv, k string) []string {
+	goNew := func(args []seqArg, k string) []string {
 		return []string{
 			fmt.Sprintf("pi := avfs.NewPathIterator[avfs.VFS](vfs, %s)", args[0].Go),
 			fmt.Sprintf("for i := 0; i < %s; i++ { pi.Next() }", k),
@@ -301,9 +301,9 @@ func iterUnits(t *target, st state) []*unit {
 
 	for _, ac := range piAccessors {
 		ac := ac
-		u := &unit{T: t, St: st, Sec: "iter", Type: "PathIterator", FS: t.Name, Method: ac.Name, Doms: [][]argv{abs, stepDomain(0, 5)}}
-		u.custom = func(in *inst, vals []any) string {
-			pi, ok := advance(in, str(vals[0]), vals[1].(int))
+		u := &seqUnit{T: t, St: st, Sec: "iter", Type: "PathIterator", FS: t.Name, Method: ac.Name, Doms: [][]seqArg{abs, stepDomain(0, 5)}}
+		u.custom = func(in *seqInst, vals []any) string {
+			pi, ok := advance(in, asStr(vals[0]), vals[1].(int))
 			if !ok {
 				return "n/a"
 			}
@@ -312,31 +312,31 @@ func iterUnits(t *target, st state) []*unit {
 
 			return "ok"
 		}
-		u.goCall = func(args []argv) []string { return append(goNew(args, args[1].Go), "_ = pi."+ac.Name+"()") }
+		u.goCall = func(args []seqArg) []string { return append(goNew(args, args[1].Go), "_ = pi."+ac.Name+"()") }
 		u.finish()
 		out = append(out, u)
 	}
 
 	// Next until exhausted (NewPathIterator included)
-	u := &unit{T: t, St: st, Sec: "iter", Type: "PathIterator", FS: t.Name, Method: "Next", Doms: [][]argv{abs}}
-	u.custom = func(in *inst, vals []any) string {
-		pi := avfs.NewPathIterator(in.v, str(vals[0]))
+	u := &seqUnit{T: t, St: st, Sec: "iter", Type: "PathIterator", FS: t.Name, Method: "Next", Doms: [][]seqArg{abs}}
+	u.custom = func(in *seqInst, vals []any) string {
+		pi := avfs.NewPathIterator(in.v, asStr(vals[0]))
 		for pi.Next() {
 			_ = pi.Part()
 		}
 
 		return "ok"
 	}
-	u.goCall = func(args []argv) []string {
+	u.goCall = func(args []seqArg) []string {
 		return []string{fmt.Sprintf("pi := avfs.NewPathIterator[avfs.VFS](vfs, %s)", args[0].Go), "for pi.Next() { _ = pi.Part() }"}
 	}
 	u.finish()
 	out = append(out, u)
 
 	// Reset after k steps, then iterate again
-	u = &unit{T: t, St: st, Sec: "iter", Type: "PathIterator", FS: t.Name, Method: "Reset", Doms: [][]argv{abs, stepDomain(0, 4)}}
-	u.custom = func(in *inst, vals []any) string {
-		pi, ok := advance(in, str(vals[0]), vals[1].(int))
+	u = &seqUnit{T: t, St: st, Sec: "iter", Type: "PathIterator", FS: t.Name, Method: "Reset", Doms: [][]seqArg{abs, stepDomain(0, 4)}}
+	u.custom = func(in *seqInst, vals []any) string {
+		pi, ok := advance(in, asStr(vals[0]), vals[1].(int))
 		if !ok {
 			return "n/a"
 		}
@@ -349,7 +349,7 @@ func iterUnits(t *target, st state) []*unit {
 
 		return "ok"
 	}
-	u.goCall = func(args []argv) []string {
+	u.goCall = func(args []seqArg) []string {
 		return append(goNew(args, args[1].Go), "pi.Reset()", "for pi.Next() { _ = pi.Part() }")
 	}
 	u.finish()
@@ -357,14 +357,14 @@ func iterUnits(t *target, st state) []*unit {
 
 	// ReplacePart on the k-th part (as the symbolic-link resolution does), then
 	// at most 8 further steps reading every part
-	u = &unit{T: t, St: st, Sec: "iter", Type: "PathIterator", FS: t.Name, Method: "ReplacePart", Doms: [][]argv{abs, stepDomain(1, 4), t.d.paths}}
-	u.custom = func(in *inst, vals []any) string {
-		pi, ok := advance(in, str(vals[0]), vals[1].(int))
+	u = &seqUnit{T: t, St: st, Sec: "iter", Type: "PathIterator", FS: t.Name, Method: "ReplacePart", Doms: [][]seqArg{abs, stepDomain(1, 4), t.d.paths}}
+	u.custom = func(in *seqInst, vals []any) string {
+		pi, ok := advance(in, asStr(vals[0]), vals[1].(int))
 		if !ok {
 			return "n/a"
 		}
 
-		_ = pi.ReplacePart(str(vals[2]))
+		_ = pi.ReplacePart(asStr(vals[2]))
 
 		for i := 0; i < 8 && pi.Next(); i++ {
 			_, _, _, _ = pi.Part(), pi.Left(), pi.Right(), pi.IsLast()
@@ -372,7 +372,7 @@ func iterUnits(t *target, st state) []*unit {
 
 		return "ok"
 	}
-	u.goCall = func(args []argv) []string {
+	u.goCall = func(args []seqArg) []string {
 		return append(goNew(args, args[1].Go), fmt.Sprintf("_ = pi.ReplacePart(%s)", args[2].Go),
 			"for i := 0; i < 8 && pi.Next(); i++ { _, _, _, _ = pi.Part(), pi.Left(), pi.Right(), pi.IsLast() }")
 	}
@@ -397,7 +397,7 @@ func checkHelperTable(repo string) (nfuncs int, err error) {
 	}
 
 	known := map[string]bool{}
-	for _, h := range helpers {
+	for _, h := range seqHelpers {
 		known[h.Name] = true
 	}
 
